@@ -530,6 +530,8 @@ func TestC11Stress(t *testing.T) {
 	}
 	defer func() { libaudit.VerifYield = nil }()
 	for it := 0; it < rounds; it++ {
+		// "no deadlocks": a round takes milliseconds; one that has not returned after two minutes never will
+		hC11.BeginLimit("TestC11Stress", C11Case{MaxInFlight: []int{0, 1, 2, 3, 8192, 8192}[it%6], Reenter: "maintain"}, 120*time.Second)
 		st := &stressStream{got: map[*auparse.AuditMessage]int{}}
 		timeout := time.Hour
 		if it%3 == 1 {
@@ -583,6 +585,7 @@ func TestC11Stress(t *testing.T) {
 			}()
 		}
 		cw.Wait()
+		hC11.End()
 		hC11.Eval()
 		c := C11Case{MaxInFlight: maxInFlight, Reenter: "maintain"}
 		if st.bad != "" {
@@ -625,6 +628,7 @@ func TestC11Stress(t *testing.T) {
 func TestC11CloseVsPush(t *testing.T) {
 	attempts := hx.EnvInt("VERIF_N", 4000)
 	for attempt := 0; attempt < attempts; attempt++ {
+		hC11.BeginLimit("TestC11CloseVsPush", C11Case{MaxInFlight: 4096}, 120*time.Second)
 		st := &stressStream{got: map[*auparse.AuditMessage]int{}}
 		r, _ := libaudit.NewReassembler(4096, time.Hour, st) // never reached (the constructor pre-allocates maxInFlight entries)
 		st.r = r
@@ -686,6 +690,7 @@ func TestC11CloseVsPush(t *testing.T) {
 		}
 		atomic.StoreInt32(&start, 1)
 		wg.Wait()
+		hC11.End()
 		hC11.Eval()
 		c := C11Case{MaxInFlight: 4096, Progs: [][]SOp{{P(uint32(base+1), 1300), opC}}}
 		if closeOK != 1 {
